@@ -92,9 +92,10 @@ def build_overlay_test(workdir, pkg, files, race=False, tags="verif"):
     repl = {}
     for f in files:
         repl[os.path.join(REPO, pkg, "zz_verif_" + os.path.basename(f))] = os.path.abspath(f)
-    ov = os.path.join(workdir, "overlay.json")
+    tag = pkg.replace("/", "_")
+    ov = os.path.join(workdir, "overlay_%s.json" % tag)
     json.dump({"Replace": repl}, open(ov, "w"))
-    out = os.path.join(workdir, "overlay_test" + ("_race" if race else ""))
+    out = os.path.join(workdir, "overlay_test_" + tag + ("_race" if race else ""))
     cmd = ["go", "test", "-c", "-vet=off", "-tags", tags, "-overlay", ov, "-o", out]
     if race:
         cmd.append("-race")
